@@ -86,6 +86,21 @@ def o_enum(src, sub, table, width):
         b = attempt(lambda: c.build(bad))
         if b[0] == 'ok':
             return 'build(%r) (unknown label) was accepted: %r' % (bad, b[1])
+    # label objects handed out by ANOTHER enum (same names, other numbers; one name this enum does not have): the name decides
+    names = list(table)
+    other_table = {n: (table[names[(i + 1) % len(names)]] + 3) % (256 ** width) for i, n in enumerate(names)}
+    other_table['extra_zz'] = 77 % (256 ** width)
+    other = construct.Enum(s, **other_table)
+    for L, ov in other_table.items():
+        for obj in (getattr(other, L), other.parse(s.build(ov))):
+            if str(obj) != L:
+                continue
+            b = attempt(lambda: c.build(obj))
+            if L in table:
+                if b != ('ok', s.build(table[L])):
+                    return 'build(label %r of another enum, number %d there) gave %r, this enum maps %r to %d' % (L, ov, b, L, table[L])
+            elif b[0] == 'ok':
+                return 'build(label %r of another enum) was accepted although this enum has no such label: %r' % (L, b[1])
     top = 256 ** width
     for v in list(range(0, min(top, 256))) + [top - 1, top // 2, 300 % top, 65535 % top]:
         d = s.build(v)
@@ -204,6 +219,16 @@ def run(tier, seed):
         ('ExprValidator(Int16ub, (obj_ % 3 == 0) & (obj_ > 5))', 'Int16ub', 'lambda v: v % 3 == 0 and v > 5', list(range(0, 700, 1))),
         ('OneOf(VarInt, [0, 127, 128, 300])', 'VarInt', 'lambda v: v in [0, 127, 128, 300]', list(range(0, 400))),
         ('NoneOf(Flag, [False])', 'Flag', 'lambda v: v not in [False]', [True, False]),
+        # collections of other kinds: the documented test is `obj in valids`, whatever that means for the collection
+        ('NoneOf(Bytes(1), b"\\x00\\xff")', 'Bytes(1)', 'lambda v: v not in b"\\x00\\xff"', [bytes([b]) for b in range(256)]),
+        ('OneOf(Bytes(1), b"ABC")', 'Bytes(1)', 'lambda v: v in b"ABC"', [bytes([b]) for b in range(256)]),
+        ('OneOf(Bytes(2), b"1234567890")', 'Bytes(2)', 'lambda v: v in b"1234567890"', [b'12', b'78', b'13', b'90', b'09', b'ab', b'45']),
+        ('NoneOf(PaddedString(2, "ascii"), "abc")', 'PaddedString(2, "ascii")', 'lambda v: v not in "abc"', ['ab', 'bc', 'ac', 'a', '', 'zz', 'c']),
+        ('OneOf(Byte, b"\\x01\\x02")', 'Byte', 'lambda v: v in b"\\x01\\x02"', vals8),
+        ('OneOf(Byte, range(3, 9))', 'Byte', 'lambda v: v in range(3, 9)', vals8),
+        ('NoneOf(Byte, {1, 2, 250})', 'Byte', 'lambda v: v not in {1, 2, 250}', vals8),
+        ('OneOf(Byte, (5,))', 'Byte', 'lambda v: v in (5,)', vals8),
+        ('OneOf(Bytes(2), {b"ab": 1, b"cd": 2})', 'Bytes(2)', 'lambda v: v in {b"ab": 1, b"cd": 2}', [b'ab', b'cd', b'ac', b'a\x00']),
     ]
     for src, sub, pred, vals in validators:
         checks.append(('validator', src, dict(sub=sub, pred_src=pred, values=vals)))
